@@ -46,7 +46,7 @@ func parseCIDR(cidr string) (*net.IPNet, error) {
 	// Check if it's already in CIDR notation
 	_, ipNet, err := net.ParseCIDR(cidr)
 	if err == nil {
-		return ipNet, nil
+		return normalizeIPv4Mapped(ipNet), nil
 	}
 
 	// Try parsing as a single IP address
@@ -55,16 +55,28 @@ func parseCIDR(cidr string) (*net.IPNet, error) {
 		return nil, err // Return original CIDR parse error
 	}
 
-	// Convert single IP to CIDR notation
-	if ip.To4() != nil {
-		// IPv4
-		_, ipNet, _ = net.ParseCIDR(cidr + "/32")
-	} else {
-		// IPv6
-		_, ipNet, _ = net.ParseCIDR(cidr + "/128")
+	// Convert single IP to a host network. The network is built from the parsed
+	// address rather than from the text: "::ffff:10.0.0.5" is an IPv4 address
+	// written in IPv6 notation, and "::ffff:10.0.0.5/32" would be the IPv6
+	// network ::/32.
+	if ip4 := ip.To4(); ip4 != nil {
+		return &net.IPNet{IP: ip4, Mask: net.CIDRMask(32, 32)}, nil
 	}
+	return &net.IPNet{IP: ip, Mask: net.CIDRMask(128, 128)}, nil
+}
 
-	return ipNet, nil
+// normalizeIPv4Mapped turns a network written as IPv4-mapped IPv6
+// ("::ffff:10.0.0.0/104") into the IPv4 network it denotes, so that it matches
+// IPv4 peers (net.IPNet.Contains never matches a 4-byte address against a
+// 16-byte network).
+func normalizeIPv4Mapped(n *net.IPNet) *net.IPNet {
+	ones, bits := n.Mask.Size()
+	if bits == 128 && ones >= 96 {
+		if ip4 := n.IP.To4(); ip4 != nil {
+			return &net.IPNet{IP: ip4, Mask: net.CIDRMask(ones-96, 32)}
+		}
+	}
+	return n
 }
 
 // IsAllowed checks if the given IP address is allowed
